@@ -12,6 +12,12 @@ func slogPkg() *packages.Package { return pSlog }
 
 func containsText(n ast.Node, text string) bool { return strings.Contains(src(n), text) }
 
+// containsNorm: the same with all white space removed on both sides
+func containsNorm(n ast.Node, text string) bool {
+	sq := func(t string) string { return strings.Join(strings.Fields(t), "") }
+	return strings.Contains(sq(src(n)), sq(text))
+}
+
 func targets() []*target {
 	return []*target{
 		{pkg: slogPkg, recv: "Level", fn: "Enabled", coq: "enabled", fallback: "Level.enabled_code",
@@ -292,6 +298,37 @@ func targets() []*target {
 			params: []string{"(g_hex : bytes)", "(m_safeSet : list (Z * bool))", "(s_jsonMode : bool)", "(s_buf : bytes)", "(str : bytes)"},
 			result: "option bytes", final: "Some (s_buf)"},
 
+		// ---- the logger tree (C10): Entry.newChildLogger and the inheritance at the head of newentry ----
+		// a *Entry is a reference (eref); the arguments are gargs (string / option / handler / other: the type
+		// assertions are oracles); the random name and newentry itself are parameters: the theorem shows WHICH
+		// name is looked up among the receiver's direct children and WITH WHAT newentry is called
+		{pkg: slogPkg, recv: "Entry", fn: "newChildLogger", coq: "new_child", file: "Loggers", strict: true, fallback: "TreeRef.new_child_ref",
+			comment: "(returns (child, s.items); None = panic)", panicT: "None", retfmt: "Some (%s)", effects: []string{"s_items"},
+			tymap: map[string]string{"*Entry": "eref", "[]any": "list garg", "any": "garg"}, nils: map[string]string{"eref": "eref_nil"},
+			calls: map[string]callSpec{
+				"*Entry.randomChildName": {pure: "rnd_name"},
+				"newentry":               {pure: "f_newentry %0 %1", spread: true},
+			},
+			params: []string{"(as_string_of_any : garg -> option bytes)", "(rnd_name : bytes)", "(f_newentry : eref -> list garg -> eref)",
+				"(s : eref)", "(s_items : gomapB eref)", "(args : list garg)"},
+			result: "option (eref * gomapB eref)", final: "None"},
+		{pkg: slogPkg, recv: "", fn: "newentry", coq: "child_defaults", file: "Loggers", strict: true, fallback: "TreeRef.child_defaults_ref",
+			comment: "(the first two statements: what a new logger starts with)",
+			opaque: map[string]string{"parent != nil": "p_present", "parent.useJSON": "p_useJSON", "parent.useColor": "p_useColor",
+				"parent.Level()": "p_level", "GetLevel()": "g_deflevel"},
+			from: func(stmts []ast.Stmt) []ast.Stmt {
+				if len(stmts) < 3 || !containsText(stmts[0], "GetLevel()") || !containsText(stmts[1], "parent.useJSON") {
+					return nil
+				}
+				// .. and the struct literal must take exactly these three
+				if !containsNorm(stmts[2], "useColor: color") || !containsNorm(stmts[2], "useJSON: js") || !containsNorm(stmts[2], "level: level") {
+					return nil
+				}
+				return stmts[0:2]
+			},
+			params: []string{"(p_present p_useJSON p_useColor : bool)", "(p_level g_deflevel : Z)"},
+			result: "bool * bool * Z", final: "(js, color, level)"},
+
 		// ---- RegisterLevel (C17): the options arrive resolved (the regPack fields after every opt ran: o_*);
 		// the seven tables are the state the function hands back; a map write overwrites (mapZ_set / mapB_set) ----
 		{pkg: slogPkg, recv: "", fn: "RegisterLevel", coq: "register", file: "Registry", strict: true, fallback: "RegRef.register_ref",
@@ -409,6 +446,7 @@ var genFiles = [][2]string{
 	{"Escapes", "Require Import Verif.Model.Base Verif.Model.Decision Verif.Model.GoSem Verif.Model.Utf8 Verif.Model.EscRef."},
 	{"Buffers", "Require Import Verif.Model.Base Verif.Model.Decision Verif.Model.GoSem Verif.Model.Utf8 Verif.Model.Buffer Verif.Model.BufRef."},
 	{"Registry", "Require Import Verif.Model.Base Verif.Model.Decision Verif.Model.Dec Verif.Model.GoSem Verif.Model.Level Verif.Model.RegRef."},
+	{"Loggers", "Require Import Verif.Model.Base Verif.Model.Decision Verif.Model.GoSem Verif.Model.TreeRef."},
 	{"LevelNames", "Require Import Verif.Model.Base Verif.Model.Decision Verif.Model.Dec Verif.Model.GoSem Verif.Model.LevelRef."},
 }
 
